@@ -79,8 +79,27 @@ theorem reject_offset (id : Nat) (defs : List UDef) (d : UDef) (hd : d ∈ defs)
 
 theorem reject_nonzero_offset (id : Nat) (defs : List UDef) (d : UDef) (hd : d ∈ defs) (hb : d.base = false)
     (e : UnitElem) (he : e ∈ d.elems) (o : String) (ho : e.offset = some o) (q : Rat)
-    (hq : Decimal.parse o = some q) (hne : q ≠ 0) : ∃ err, genAddUnits id defs = .error err :=
-  (genAddUnits_error_iff id defs).mpr (C03.reject_nonzero_offset id defs d hd hb e he o ho q hq hne)
+    (hq : Decimal.parse o = some q) (hnz : roundsToZero q = false) : ∃ err, genAddUnits id defs = .error err :=
+  (genAddUnits_error_iff id defs).mpr (C03.reject_nonzero_offset id defs d hd hb e he o ho q hq hnz)
+
+theorem reject_nonzero_offset_of_ne (id : Nat) (defs : List UDef) (d : UDef) (hd : d ∈ defs) (hb : d.base = false)
+    (e : UnitElem) (he : e ∈ d.elems) (o : String) (ho : e.offset = some o) (q : Rat)
+    (hq : Decimal.parse o = some q) (hne : q ≠ 0) (hden : q.den < 2 ^ 1075) :
+    ∃ err, genAddUnits id defs = .error err :=
+  (genAddUnits_error_iff id defs).mpr (C03.reject_nonzero_offset_of_ne id defs d hd hb e he o ho q hq hne hden)
+
+/-- the converse, at full strength: offsets that pass the test of the source (`float(offset) == 0`: every spelling of
+    zero) have no effect on what the GENERATED `_add_units` does - outcome, exception class, registry and store are
+    those of the document without the `offset` attributes -/
+theorem zero_offsets_ignored (id : Nat) (defs : List UDef)
+    (h : ∀ d ∈ defs, d.elems.any elemOffsetBad = false) :
+    genAddUnits id (defs.map C03.dropOffsets) = genAddUnits id defs := by
+  rw [genAddUnits_eq, genAddUnits_eq, C03.zero_offsets_ignored id defs h]
+
+theorem zero_offsets_ignored_of_zero (id : Nat) (defs : List UDef)
+    (h : ∀ d ∈ defs, ∀ e ∈ d.elems, ∀ o, e.offset = some o → Decimal.parse o = some 0) :
+    genAddUnits id (defs.map C03.dropOffsets) = genAddUnits id defs := by
+  rw [genAddUnits_eq, genAddUnits_eq, C03.zero_offsets_ignored_of_zero id defs h]
 
 theorem reject_dangling (id : Nat) (defs : List UDef) (d : UDef) (hd : d ∈ defs) (hb : d.base = false)
     (e : UnitElem) (he : e ∈ d.elems) (h1 : cellmlUnits.contains e.units = false)
@@ -97,6 +116,11 @@ theorem reject_cycle (id : Nat) (defs : List UDef) (cyc : List UDef) (hne : cyc 
 /-- the chain document of `Props/C03.lean` is loaded by the generated `_add_units` … -/
 example : ∃ r, genAddUnits 0 C03.chain = .ok r := by
   obtain ⟨r, hr⟩ := C03.ok_of_fuel (id := 0) (defs := C03.chain) (by decide +kernel)
+  exact ⟨r, (genAddUnits_ok_iff 0 _ r).mpr hr⟩
+
+/-- … `offset="0.0"` is accepted by the generated code (finding `valid-rejected:zero-offset-spelling`, fixed) … -/
+example : ∃ r, genAddUnits 0 [⟨"degK", false, [⟨"kelvin", none, none, none, some "0.0"⟩]⟩] = .ok r := by
+  obtain ⟨r, hr⟩ := C03.offset_zero_point_accepted.2.2.2.2
   exact ⟨r, (genAddUnits_ok_iff 0 _ r).mpr hr⟩
 
 /-- … a ring of three definitions is refused with the work list's own `ValueError` (class from the source) -/
